@@ -256,6 +256,15 @@ BASES = [
         '1040.ira_exception2_you': 'yes', '8606:you.part_1_needed': 'no', '8606:you.part_2_needed': 'yes', '8606:you.part_3_needed': 'no',
         '8606:you.net_converted': '6500', '8606:you.converted_cost_basis': '6000',
     })),
+    # Forms 8606 and 8889 for the same person (lines with the same base names - name, ssn - in two per-person forms)
+    Base('B26-ira-and-hsa', ['1040'], dict(W2, **{
+        '1040.number_1099-r': '1', '1099-r:0.box_1': '6500', '1099-r:0.box_2a': '6500', '1099-r:0.box_7_ira_sep_simple': 'yes',
+        '1099-r:0.box_2b_taxable_not_determined': 'yes', '1099-r:0.belongs_to': 'taxpayer',
+        '1040.ira_exception2_you': 'yes', '8606:you.part_1_needed': 'no', '8606:you.part_2_needed': 'yes', '8606:you.part_3_needed': 'no',
+        '8606:you.net_converted': '6500', '8606:you.converted_cost_basis': '6000',
+        '1040.schedule_1_income_adjustments': 'yes', '1040_s1.hsa_contribution_you': 'yes', '1040_s1.student_loan_interest': 'no',
+        '8889:you.hsa_contributions': '1500', '8889:you.employer_contribution': '0', '8889:*.hsa_full_year': 'yes', '8889:*.age_under_55': 'yes',
+    })),
     Base('B7-dense', ['1040'], {
         '1040.number_w-2': '2', 'w-2:1.belongs_to': 'spouse', '1040.filing_status': 'MarriedFilingJointly',
         '1040.number_1099-int': '1', '1040.number_1099-div': '1', '1040.number_1099-g': '1', '1040.number_1098': '1',
